@@ -260,6 +260,50 @@ fn judge_program(f: &Fault, prefix: &str, n: u32, ctx: &mut Ctx) {
     }
 }
 
+/// The diagnostics of a faulty program do not depend on what was typed before
+/// it: a direct line that failed to compile, or to link, leaves nothing behind.
+fn judge_after_failed_direct(f: &Fault, n: u32, ctx: &mut Ctx) {
+    let mut lines: Vec<(u32, String)> = vec![(10, "PRINT \"m10\";".into()), (30, "PRINT \"m30\";:RETURN".into()), (n, f.stmt.clone())];
+    lines.sort_by_key(|l| l.0);
+    lines.dedup_by_key(|l| l.0);
+    let typed: Vec<String> = lines.iter().map(|(k, t)| format!("{} {}", k, t)).collect();
+    for pre in ["PRINT )", "GOTO 64000", "WEND"] {
+        let desc = format!("{} // {} // RUN // LIST // GOTO 10  vs the same without the failing direct line", pre, typed.join(" / "));
+        if !ctx.begin(&desc) {
+            continue;
+        }
+        let r = guard(|| {
+            let run = |pre: Option<&str>| {
+                let mut s = Session::new();
+                if let Some(p) = pre {
+                    s.enter(p);
+                    s.take();
+                }
+                for l in &typed {
+                    s.enter(l);
+                }
+                s.take();
+                let mut t = String::new();
+                for cmd in ["RUN", "LIST", "GOTO 10", "RUN 10"] {
+                    s.enter(cmd);
+                    t.push_str(&format!("{:?}|", s.take()));
+                }
+                t
+            };
+            (run(None), run(Some(pre)))
+        });
+        match r {
+            Err(p) => ctx.violation("after-failed-direct-line/panic", p),
+            Ok((a, b)) => {
+                ctx.nontrivial(hash64(&(pre, &a)));
+                if a != b {
+                    ctx.violation("after-failed-direct-line/diagnostics-differ", format!("{} : without {:?}, with {:?}", desc, a, b));
+                }
+            }
+        }
+    }
+}
+
 /// direct-mode loops that never enter the (broken) program must run
 fn judge_direct_loops(ctx: &mut Ctx) {
     let prog = ["10 PRINT \"m10\";", "20 GOTO 7777"];
@@ -399,6 +443,7 @@ impl Sweep for Faults {
             }
             judge_direct(f, prefix, ctx);
         }
+        judge_after_failed_direct(f, 20, ctx);
         if shard == 0 {
             judge_direct_loops(ctx);
         }
@@ -413,7 +458,8 @@ impl Sweep for Faults {
 /// resuming or entering it may run any of its lines.
 struct BrokenWhileStopped;
 
-const STOPPERS: [&str; 3] = ["STOP", "END", "A$=INKEY$:IF A$=\"\" THEN 50"];
+/// (the last one breaks the program by itself: DELETE executed by the program ends the run)
+const STOPPERS: [&str; 4] = ["STOP", "END", "A$=INKEY$:IF A$=\"\" THEN 50", "DELETE 40"];
 const BREAKING_EDITS: [&str; 7] = ["DELETE 40", "40", "DELETE 30-40", "20 GOTO 77", "60 GOTO 77", "35 WEND", "DELETE 40-"];
 const RESUMES: [&str; 9] = ["CONT", "RETURN", "NEXT", "GOTO 10", "GOSUB 30", "RUN", "RUN 20", "ON 1 GOTO 30", "IF 1 THEN 30"];
 
@@ -514,7 +560,7 @@ impl Check for C19 {
     }
     fn meta(&self, _tier: Tier) -> Meta {
         Meta {
-            bound: "20 referencing forms (GOTO, GOSUB, THEN n, ELSE n, IF..GOTO, THEN GOSUB, nested THEN, every position of ON..GOTO / ON..GOSUB lists, RESTORE n, RUN n, references after FOR / WHILE / DEF / other statements) x 6 missing targets (1 to 5 digits, and 0), 9 unmatched WHILE / WEND placements, and every single-token deletion / replacement (7 replacement tokens) of 11 template lines; x 5 prefixes (none, multi-byte strings, blanks, other statements) x 6 line numbers of 1..5 digits incl. 65529, and as a direct line; 8 ways of entering / not entering the program after each; direct-mode loops over a broken program; a clean program stopped in 3 ways (STOP / END inside a loop inside a subroutine, interrupt while a key is awaited) x 7 edits that break it (DELETE forms, bare number, retyped and added faulty lines, unmatched WEND) x 9 ways of resuming or entering x 3 follow-ups".into(),
+            bound: "20 referencing forms (GOTO, GOSUB, THEN n, ELSE n, IF..GOTO, THEN GOSUB, nested THEN, every position of ON..GOTO / ON..GOSUB lists, RESTORE n, RUN n, references after FOR / WHILE / DEF / other statements) x 6 missing targets (1 to 5 digits, and 0), 9 unmatched WHILE / WEND placements, and every single-token deletion / replacement (7 replacement tokens) of 11 template lines; x 5 prefixes (none, multi-byte strings, blanks, other statements) x 6 line numbers of 1..5 digits incl. 65529, and as a direct line; 8 ways of entering / not entering the program after each; direct-mode loops over a broken program; every fault again after a direct line that failed to compile / link / match (diagnostics must be identical); a clean program stopped in 4 ways (STOP / END inside a loop inside a subroutine, interrupt while a key is awaited, a DELETE of a jump target executed by the program itself) x 7 edits that break it (DELETE forms, bare number, retyped and added faulty lines, unmatched WEND) x 9 ways of resuming or entering x 3 follow-ups".into(),
             rule: "a case is one faulty program (or direct line); checked per diagnostic: line, code, range inside the listed text, range covers exactly the missing number / the keyword, message column = range start + 1, LIST underline = range; RUN, RUN n, GOTO, GOSUB, ON..GOTO, IF..THEN n print no marker and report; PRINT \"D\" works; distinct_nontrivial = distinct (site, prefix, digits of the line number, statement)".into(),
             states_note: "transitions = sessions judged".into(),
             assumptions: vec![
